@@ -154,6 +154,8 @@ class ExtLib:
         return Ext(path)
 
     def dtype_attr(self, d, attr):
+        if attr == "type":
+            return d            # numpy.dtype(...).type is the scalar type; the abstraction uses one value for both
         raise Unsupported("dtype attribute %s" % attr)
 
     def array_attr(self, arr, attr, e, ms):
@@ -181,7 +183,7 @@ class ExtLib:
         if attr == "flags":
             return Opaque("arrflags", arr)
         if attr in ("view", "astype", "copy", "reshape", "transpose", "argsort", "toarray", "sum", "fill",
-                    "max", "min", "mean", "flatten", "ravel", "tolist", "item", "all", "any", "squeeze"):
+                    "max", "min", "mean", "flatten", "ravel", "tolist", "item", "all", "any", "squeeze", "setflags"):
             return Opaque("arrmethod", (arr, attr))
         raise Unsupported("array attribute %s at %s" % (attr, self.I.where(e, ms)))
 
@@ -435,6 +437,21 @@ class ExtLib:
             raise Unsupported("matmul ranks")
         return self.derived_array("matmul", [a, b], shape, a.dtype, node, ms)
 
+    def c_functools_lru_cache(self, args, kwargs, node, ms):
+        from .values import Func
+        if args and isinstance(args[0], Func):
+            self.I.memoised.append((args[0], False, self.I.where(node, ms)))
+            return args[0]
+        typed = kwargs.get("typed", args[1] if len(args) > 1 else False)
+        return Opaque("memo-decorator", {"typed": typed is True})
+
+    def c_functools_cache(self, args, kwargs, node, ms):
+        from .values import Func
+        if args and isinstance(args[0], Func):
+            self.I.memoised.append((args[0], False, self.I.where(node, ms)))
+            return args[0]
+        raise Unsupported("functools.cache applied to %r at %s" % (args, self.I.where(node, ms)))
+
     # ------------------------------------------------------------------ calls
     def call(self, ext, args, kwargs, node, ms):
         p = ext.path
@@ -502,6 +519,11 @@ class ExtLib:
         raise Unsupported("method %s of %s at %s" % (m, type(obj).__name__, self.I.where(node, ms)))
 
     def array_method(self, arr, m, args, kwargs, node, ms):
+        if m == "setflags":
+            if args or set(kwargs) != {"write"}:
+                raise Unsupported("setflags other than write= at %s" % self.I.where(node, ms))
+            self.I.trace.append(Op("SetFlag", arr=arr, flag="writeable", value=kwargs["write"], where=self.I.where(node, ms)))
+            return None
         if m == "view":
             if args or kwargs:
                 raise Unsupported("view with dtype")
